@@ -117,12 +117,15 @@ type base struct {
 func (b *base) visit(kind string, ctx netty.HandlerContext) (forward bool) {
 	w := b.w
 	idx := -1
-	for i := 0; i < w.pl.Size(); i++ {
-		if c := w.pl.ContextAt(i); c == ctx {
-			idx = i
-			break
+	func() {
+		defer func() { recover() }()
+		for i := 0; i < w.pl.Size(); i++ {
+			if c := w.pl.ContextAt(i); c == ctx {
+				idx = i
+				break
+			}
 		}
-	}
+	}()
 	if idx < 0 {
 		w.ctxBad = fmt.Sprintf("handler #%d invoked with a context that is at no pipeline position", b.id)
 	} else if h, ok := ctx.Handler().(interface{ ident() int }); !ok || h.ident() != b.id {
@@ -257,18 +260,27 @@ func newProbe(w *pipeWorld, t string, id int) netty.Handler {
 func (w *pipeWorld) order() []int {
 	out := []int{}
 	for i := 1; i < w.pl.Size()-1; i++ {
-		c := w.pl.ContextAt(i)
-		if c == nil {
-			out = append(out, -99)
-			continue
-		}
-		if h, ok := c.Handler().(interface{ ident() int }); ok {
-			out = append(out, h.ident())
-		} else {
-			out = append(out, -98)
-		}
+		out = append(out, w.identAt(i))
 	}
 	return out
+}
+
+// identAt: instance id of the handler at pipeline index i; negative codes for a missing context
+// (-99), a foreign handler (-98) or a runtime fault inside the pipeline (-97)
+func (w *pipeWorld) identAt(i int) (id int) {
+	defer func() {
+		if r := recover(); r != nil {
+			id = -97
+		}
+	}()
+	c := w.pl.ContextAt(i)
+	if c == nil {
+		return -99
+	}
+	if h, ok := c.Handler().(interface{ ident() int }); ok {
+		return h.ident()
+	}
+	return -98
 }
 
 func hasKind(t, k string) bool {
@@ -302,8 +314,10 @@ func makePanicVal(pv string, n int) (val interface{}, match func(error) bool) {
 func runPipeCase(c *PipeCase) *PipeResult {
 	res := &PipeResult{ID: c.ID, Fails: []Fail{}, Actions: map[string]int{}}
 	// the tail handler prints to stderr when an exception reaches it
-	if devnull, err := os.OpenFile(os.DevNull, os.O_WRONLY, 0); err == nil {
-		syscall.Dup2(int(devnull.Fd()), 2)
+	if os.Getenv("VERIF_STDERR") == "" {
+		if devnull, err := os.OpenFile(os.DevNull, os.O_WRONLY, 0); err == nil {
+			syscall.Dup2(int(devnull.Fd()), 2)
+		}
 	}
 	w := &pipeWorld{stop: map[int]bool{}}
 	netty.VerifHook = nil
@@ -312,7 +326,10 @@ func runPipeCase(c *PipeCase) *PipeResult {
 	// attach the channel without running the read loop: the executor holds the loop, so
 	// ServeChannel stays parked waiting for the active signal (the loop itself is the
 	// subject of Channel.tla; its per-invocation recover scope is entered via VerifInvokeMethod)
-	w.ch = netty.NewChannel()(1, context.Background(), w.pl, w.tr, holdExecutor{})
+	parentCtx, parentCancel := context.WithCancel(context.Background())
+	defer parentCancel()
+	pcancelled := false
+	w.ch = netty.NewChannel()(1, parentCtx, w.pl, w.tr, holdExecutor{})
 	go w.pl.ServeChannel(w.ch)
 	for i := 0; w.pl.Channel() == nil; i++ {
 		runtime.Gosched()
@@ -350,6 +367,9 @@ func runPipeCase(c *PipeCase) *PipeResult {
 				}
 			}
 			return refs
+		}
+		if c.Panics && !pcancelled && !closed && rnd.Intn(12) == 0 {
+			return PipeOp{Op: "PCancel"}
 		}
 		switch {
 		case r < 3 && (ninst < c.MaxInst || ninst > 0):
@@ -427,6 +447,13 @@ func runPipeCase(c *PipeCase) *PipeResult {
 			ev.Refs = []PipeRef{}
 		}
 		switch op.Op {
+		case "PCancel":
+			if pcancelled || closed {
+				res.Diverged++
+				continue
+			}
+			pcancelled = true
+			parentCancel()
 		case "AddFirst", "AddLast", "AddHandler":
 			var hs []netty.Handler
 			ninst := len(w.inst)
@@ -487,14 +514,22 @@ func runPipeCase(c *PipeCase) *PipeResult {
 				return ok && hi.ident() == op.X
 			}
 			ev.Size = w.pl.Size()
-			ev.First = w.pl.IndexOf(cmp)
-			ev.LastIdx = w.pl.LastIndexOf(cmp)
+			func() {
+				defer func() {
+					if r := recover(); r != nil {
+						ev.First, ev.LastIdx = -97, -97
+						fail("C03", "runtime-fault/query", fmt.Sprintf("IndexOf/LastIndexOf failed with %v", r), step)
+					}
+				}()
+				ev.First = w.pl.IndexOf(cmp)
+				ev.LastIdx = w.pl.LastIndexOf(cmp)
+			}()
 			ev.Order = w.order()
 			if w.pl.ContextAt(-1) != nil || w.pl.ContextAt(ev.Size) != nil {
 				fail("C03", "context-at-out-of-range", "ContextAt(-1) or ContextAt(Size) is not nil", step)
 			}
 			for i := 0; i < ev.Size; i++ {
-				if w.pl.ContextAt(i) == nil {
+				if w.identAt(i) == -99 || w.identAt(i) == -97 {
 					fail("C03", "context-at-nil", fmt.Sprintf("ContextAt(%d) is nil with Size %d", i, ev.Size), step)
 				}
 			}
